@@ -87,7 +87,7 @@ def jobs(tier):
                                 crosscheck=10))
     for issuer in ('deriver', 'flowstep'):
         for k in range(len(KINDS)):
-            if KINDS[k] == 'generate_into':
+            if KINDS[k] in ('generate_into', 'regen_same_instant'):
                 continue        # covered with a process as issuer
             if KINDS[k] == 'generate_over':
                 # a step replaced in place in the middle of a step phase:
